@@ -78,6 +78,7 @@ func ReadStepResponse(iter iterators.Iterator[Step], instant bool) (s lokiapi.Qu
 	s.SetMatrixResult(lokiapi.MatrixResult{
 		Result: maps.Values(matrixSeries),
 	})
+	s.MatrixResult.Result = verifOrderMatrix(s.MatrixResult.Result)
 	return s, nil
 }
 
